@@ -9,9 +9,13 @@ MODE = 'trace'
 THEOREMS = ['Tbox.C14.' + t for t in [
     'C14_header_roundtrip', 'C14_header_resumable', 'C14_header_total', 'C14_header_total_counterexample',
     'C14_raw_end', 'C14_raw_prefix', 'C14_raw_resumable', 'C14_raw_total', 'C14_raw_roundtrip',
-    'C14_raw_scalar_counterexample', 'C14_packet_roundtrip',
+    'C14_raw_scalar_counterexample', 'C14_raw_unbalanced_counterexample', 'C14_raw_backscan_in_bounds',
+    'C14_packet_roundtrip',
     'C14_stream_segmentation', 'C14_header_segmentation', 'C14_raw_segmentation',
     'C14_callback_once', 'C14_callback_code', 'C14_callback_ignored', 'C14_tick_slot',
+    'C14_response_id_range', 'C14_response_id_counterexample',
+    'C14_ring_expiry', 'C14_callback_timeout', 'C14_callback_exactly_once',
+    'C14_pending_timer_on', 'C14_pending_timer_on_counterexample',
 ]]
 SOURCES = ['modules/jsonrpc/proto.cpp', 'modules/jsonrpc/rpc.cpp',
            'modules/jsonrpc/protos/header_stream_proto.cpp', 'modules/jsonrpc/protos/raw_stream_proto.cpp',
@@ -38,7 +42,6 @@ TRUSTED = [
     'virtual time by libc interposition (harness/vtime.h); the 1-s timer is the real event loop\'s',
 ]
 ASSUMPTIONS = ['message text shorter than 2^32 bytes (the encoder truncates the length field otherwise)',
-               'response ids within int range (ids outside are truncated by nlohmann get<int>(): reported as an observation)',
                'stack depth of Proto::onRecvJson is exercised by the harness only (deep op), not expressible in the model']
 RULE = ('framing cases: messages generated as JSON (nested, quotes/backslashes/brackets in strings, non-ASCII) through the real '
         'encoder, fed back unsegmented, at every 2-way split, byte-wise and at random cuts, concatenated; literal streams with '
@@ -227,7 +230,9 @@ def gen_rpc(rng):
             ops.append('note')
         elif r < 0.62:
             if issued and rng.random() < 0.8: idv = rng.randrange(1, issued + 1)
-            else: idv = rng.choice([0, -1, issued + 1, issued + 5, 2147483647, -2147483648])
+            else: idv = rng.choice([0, -1, issued + 1, issued + 5, 2147483647, -2147483648, 2147483648, (1 << 32) + max(issued, 1),
+                                   (1 << 32) + rng.randrange(1, issued + 2), -(1 << 32) + 1, (1 << 63), (1 << 64) + 1, (1 << 64) - (1 << 32) + 1,
+                                   -(1 << 63) - 1, 10 ** 24 + 1])
             ops.append('rsp %d %d' % (idv, rng.choice([0, 0, 0, 5, -1, -32000])))
         else:
             ops.append('adv %d' % rng.choice([0, 1, 500, 999, 1000, 1000, 1001, 1500, 2000, 3000, n * 1000, n * 1000 - 1, n * 1000 + 1, 10000]))
@@ -258,6 +263,9 @@ def gen(rng, tier):
     yield ['rpc R 2', 'req 0', 'rsp 1 0', 'rsp 1 0', 'adv 2000', 'req 0', 'adv 1999', 'adv 1', 'rsp 2 0', 'rsp 9 0', 'req 1', 'adv 2000', 'adv 2000']
     yield ['rpc H 1', 'req 1', 'adv 1000', 'adv 1000', 'adv 1000']
     yield ['rpc P 3', 'req 0', 'adv 500', 'req 0', 'adv 2500', 'adv 500', 'adv 1000']
+    # directed: response ids outside int (must be ignored, not truncated onto a pending request)
+    yield ['rpc R 3', 'req 0', 'rsp 4294967297 0', 'rsp 1 0']
+    yield ['rpc H 3', 'req 0', 'req 0', 'rsp -4294967294 5', 'rsp 18446744069414584321 0', 'rsp 36893488147419103233 0', 'rsp 2 0', 'rsp 1 0']
     n = 120 if q else 2500
     for i in range(n):
         yield gen_roundtrip(rng, exhaustive=(i % 6 == 0))
@@ -269,8 +277,8 @@ def gen(rng, tier):
         yield gen_rpc(rng)
 
 
-NT = ('resumed-frame', 'multi-frame', 'hdr-need-body-extreme-len', 'raw-unbalanced', 'parse-fail', 'timeout-fired',
-      'rsp-late-or-dup', 'rsp-unknown', 'deep')
+NT = ('resumed-frame', 'multi-frame', 'hdr-need-body-extreme-len', 'raw-unbalanced-err', 'parse-fail', 'timeout-fired',
+      'rsp-late-or-dup', 'rsp-unknown', 'rsp-id-beyond-int', 'deep')
 
 
 def nontrivial(ops, model_lines):
@@ -293,8 +301,8 @@ def fingerprint(ops, d):
 LEVEL_TEXT = ('Lean 4 theorems over a hand-written model: header framing (32-bit length arithmetic) round trip, prefix stability and '
               'totality; FindEndPos bracket/quote/backslash scanner finds exactly the end of every well-shaped value text and returns '
               '0 on every proper prefix; segmentation independence of the receive loop for every prefix-stable decoder; pending map + '
-              'timeout ring: every callback fires at most once, exactly once after N ticks, with the first matching response\'s code '
-              'or the timeout code. Tied to the code on every run by trace acceptance of the real protos / real Rpc (ASan+UBSan).')
+              'timeout ring: every callback fires at most once; an unanswered request fires exactly once, at the N-th tick, with the timeout '
+              'code; a matching response fires it with its code; other ids (unknown, duplicate, late, beyond int) are ignored; pending implies timer on. Tied to the code on every run by trace acceptance of the real protos / real Rpc (ASan+UBSan).')
 LEVEL_NOTE = ('trusted: Lean kernel; hand-written model + trace-acceptance tie (coverage bounded by the generator, measured); '
               'nlohmann parse/dump abstract (oracle); stack depth and int truncation of ids outside the model')
 TECHNIQUE = 'Lean 4 proofs (induction over token grammars / op sequences, invariants) + trace acceptance of the implementation'
